@@ -9,9 +9,11 @@
 (* current tree still has.                                                   *)
 (***************************************************************************)
 EXTENDS Naturals, Sequences, FiniteSets, TLC, Json
-CONSTANTS MaxDisc, MaxVer, MaxWaits, Defects, EmitMode
+CONSTANTS MaxDisc, MaxVer, MaxWaits, MaxBrowse, Defects, EmitMode
 DefectNames == {"staleReannounce",   \* the loop re-announces the data captured at disconnect time
                 "shutdownUndone",    \* manualShutdown is only checked before the sleep, and Start resets it
+                "resolveTakesMutex", \* (a design the tree never had; a seeded change did) the listener takes the provider's mutex after resolving a
+                                     \* service - Shutdown holds that mutex while it waits for the listener: they wait for each other for ever
                 "multiLoop"}         \* every Disconnected event starts another reconnect loop: duplicate browsers, one is never freed
 ASSUME Defects \subseteq DefectNames
 Has(d) == d \in Defects
@@ -24,48 +26,71 @@ VARIABLES daemonUp,      \* the daemon is reachable
           manualShutdown, autoReconnect,
           loops,         \* sequence of reconnect loops: [data] (data = announcement captured at disconnect)
           requested,     \* what the application asked for last (0 = no announcement active)
-          shutdownDone, lateActivity, ndisc, ver, nwaits, script
+          shutdownDone, lateActivity, ndisc, ver, nwaits, script,
+          lst,           \* the listener goroutine (chanListener): "idle" (in its select) or "resolving" (inside ResolveService:
+                         \* a D-Bus round trip whose answer the daemon has not given yet)
+          shutting,      \* Shutdown was called and has not returned: it holds the provider's mutex and waits for the listener
+          nbrowse, reported
+lvars == <<lst, shutting, nbrowse, reported>>
 vars == <<daemonUp, browsers, published, stored, group, manualShutdown, autoReconnect, loops, requested,
-          shutdownDone, lateActivity, ndisc, ver, nwaits, script>>
+          shutdownDone, lateActivity, ndisc, ver, nwaits, script, lvars>>
 
 Init == /\ daemonUp = TRUE /\ browsers = 1 /\ published = 0 /\ stored = 0 /\ group = FALSE
         /\ manualShutdown = FALSE /\ autoReconnect = TRUE /\ loops = <<>>
         /\ requested = 0 /\ shutdownDone = FALSE /\ lateActivity = FALSE /\ ndisc = 0 /\ ver = 0 /\ nwaits = 0
-        /\ script = <<>>
+        /\ script = <<>> /\ lst = "idle" /\ shutting = FALSE /\ nbrowse = 0 /\ reported = 0
 
 Log(op) == script' = IF EmitMode = "none" THEN script ELSE Append(script, op)
 
 \* Announce(serviceName, port, txt) with a new TXT version (also what SetAutoAccept leads to); fails while the daemon is down,
 \* but the data is stored first
-Announce == /\ ~shutdownDone /\ ver < MaxVer /\ ver' = ver + 1
+Announce == /\ ~shutting /\ UNCHANGED lvars /\ ~shutdownDone /\ ver < MaxVer /\ ver' = ver + 1
             /\ stored' = ver + 1 /\ requested' = ver + 1
             /\ (IF daemonUp THEN published' = ver + 1 /\ group' = TRUE ELSE UNCHANGED <<published, group>>)
             /\ Log([op |-> "Announce", v |-> ver + 1])
             /\ UNCHANGED <<daemonUp, browsers, manualShutdown, autoReconnect, loops, shutdownDone, lateActivity, ndisc, nwaits>>
-Unannounce == /\ ~shutdownDone /\ requested # 0
+Unannounce == /\ ~shutting /\ UNCHANGED lvars /\ ~shutdownDone /\ requested # 0
               /\ stored' = 0 /\ requested' = 0
               /\ (IF group THEN group' = FALSE /\ published' = (IF daemonUp THEN 0 ELSE published) ELSE UNCHANGED <<group, published>>)
               /\ Log([op |-> "Unannounce"])
               /\ UNCHANGED <<daemonUp, browsers, manualShutdown, autoReconnect, loops, shutdownDone, lateActivity, ndisc, ver, nwaits>>
 
 \* the daemon goes away: everything it held is gone; the Disconnected callback starts a reconnect loop
-DaemonDown == /\ daemonUp /\ ndisc < MaxDisc /\ ndisc' = ndisc + 1
+DaemonDown == /\ ~shutting /\ UNCHANGED lvars /\ daemonUp /\ ndisc < MaxDisc /\ ndisc' = ndisc + 1
               /\ daemonUp' = FALSE /\ browsers' = 0 /\ published' = 0
               /\ (IF manualShutdown \/ ~autoReconnect \/ (loops # <<>> /\ ~Has("multiLoop"))
                   THEN UNCHANGED loops
                   ELSE loops' = Append(loops, [data |-> stored]))
               /\ Log([op |-> "DaemonDown"])
               /\ UNCHANGED <<stored, group, manualShutdown, autoReconnect, requested, shutdownDone, lateActivity, ver, nwaits>>
-DaemonUp == /\ ~daemonUp /\ daemonUp' = TRUE
+DaemonUp == /\ ~shutting /\ UNCHANGED lvars /\ ~daemonUp /\ daemonUp' = TRUE
             /\ Log([op |-> "DaemonUp"])
             /\ UNCHANGED <<browsers, published, stored, group, manualShutdown, autoReconnect, loops, requested, shutdownDone, lateActivity, ndisc, ver, nwaits>>
 
-Shutdown == /\ ~shutdownDone /\ shutdownDone' = TRUE
+\* Shutdown, first half: the mutex is taken, the flags are set, the browser is freed; then Shutdown sends on the listener's stop
+\* channel - an unbuffered send the listener only takes in its select, i.e. once a resolve in progress is over
+ShutdownCall == /\ ~shutdownDone /\ ~shutting /\ shutting' = TRUE
+                /\ Log([op |-> "Shutdown"])
+                /\ UNCHANGED <<daemonUp, browsers, published, stored, group, manualShutdown, autoReconnect, loops, requested,
+                               shutdownDone, lateActivity, ndisc, ver, nwaits, lst, nbrowse, reported>>
+ShutdownFinish == /\ shutting /\ lst = "idle" /\ shutting' = FALSE /\ shutdownDone' = TRUE
             /\ manualShutdown' = TRUE /\ autoReconnect' = FALSE
             /\ browsers' = (IF browsers > 0 THEN browsers - 1 ELSE 0)       \* only the browser the provider remembers is freed
             /\ stored' = 0 /\ group' = FALSE /\ published' = 0 /\ requested' = 0
-            /\ Log([op |-> "Shutdown"])
-            /\ UNCHANGED <<daemonUp, loops, lateActivity, ndisc, ver, nwaits>>
+            /\ UNCHANGED <<daemonUp, loops, lateActivity, ndisc, ver, nwaits, script, lst, nbrowse, reported>>
+\* a service appears: the browser hands it to the listener, which starts to resolve it
+BrowseAdd == /\ ~shutting /\ ~shutdownDone /\ daemonUp /\ browsers > 0 /\ lst = "idle" /\ nbrowse < MaxBrowse
+             /\ lst' = "resolving" /\ nbrowse' = nbrowse + 1
+             /\ Log([op |-> "BrowseAdd"])
+             /\ UNCHANGED <<daemonUp, browsers, published, stored, group, manualShutdown, autoReconnect, loops, requested,
+                            shutdownDone, lateActivity, ndisc, ver, nwaits, shutting, reported>>
+\* the daemon answers: the listener reports the service and returns to its select. It needs no lock for that - with the
+\* (seeded) design that takes the provider's mutex here it cannot go on while Shutdown holds it
+ResolveDone == /\ lst = "resolving" /\ ~(Has("resolveTakesMutex") /\ shutting)
+               /\ lst' = "idle" /\ reported' = reported + 1
+               /\ Log([op |-> "ResolveDone"])
+               /\ UNCHANGED <<daemonUp, browsers, published, stored, group, manualShutdown, autoReconnect, loops, requested,
+                              shutdownDone, lateActivity, ndisc, ver, nwaits, shutting, nbrowse>>
 
 \* one iteration of one reconnect loop whose sleep is over: st = [browsers, published, stored, group, manualShutdown,
 \* autoReconnect, late, keep]
@@ -83,7 +108,7 @@ RunLoops(st, ls, kept) ==
          IN  RunLoops([r EXCEPT !.keep = FALSE], Tail(ls), IF r.keep THEN Append(kept, Head(ls)) ELSE kept)
 
 \* more than a second passes: every sleeping loop runs one iteration
-Wait == /\ nwaits < MaxWaits /\ nwaits' = nwaits + 1
+Wait == /\ ~shutting /\ UNCHANGED lvars /\ nwaits < MaxWaits /\ nwaits' = nwaits + 1
         /\ LET st0 == [browsers |-> browsers, published |-> published, stored |-> stored, group |-> group,
                        manualShutdown |-> manualShutdown, autoReconnect |-> autoReconnect, late |-> lateActivity, keep |-> FALSE]
                r   == RunLoops(st0, loops, <<>>)
@@ -93,16 +118,19 @@ Wait == /\ nwaits < MaxWaits /\ nwaits' = nwaits + 1
         /\ Log([op |-> "Wait"])
         /\ UNCHANGED <<daemonUp, requested, shutdownDone, ndisc, ver>>
 
-Next == Announce \/ Unannounce \/ DaemonDown \/ DaemonUp \/ Shutdown \/ Wait
-Spec == Init /\ [][Next]_vars
+Next == Announce \/ Unannounce \/ DaemonDown \/ DaemonUp \/ ShutdownCall \/ ShutdownFinish \/ BrowseAdd \/ ResolveDone \/ Wait
+\* the daemon answers every resolve request and the provider's own steps are taken
+Spec == Init /\ [][Next]_vars /\ WF_vars(ShutdownFinish) /\ WF_vars(ResolveDone)
 
 \* C19: once the daemon is reachable again and no loop is left, browsing is resumed and what is published is what was requested last
 Settled == daemonUp /\ loops = <<>> /\ ~shutdownDone
 P_C19_fresh   == Settled => (browsers > 0 /\ published = requested)
 P_C19_afterShutdown == ~lateActivity
+\* "shutdown itself never deadlocks": a Shutdown that was called returns (liveness), whatever the listener is doing
+L_C19_shutdownReturns == shutting ~> shutdownDone
 P_C19_shutdownFinal == shutdownDone => (loops = <<>> => browsers = 0 /\ published = 0)
 
-Quiet == loops = <<>> /\ daemonUp /\ nwaits > 0
+Quiet == loops = <<>> /\ daemonUp /\ nwaits > 0 /\ lst = "idle" /\ ~shutting
 Emit == EmitMode = "none" \/ ~(Quiet' /\ script'[Len(script')].op = "Wait") \/ PrintT(<<"TEST", ToJson(script')>>)
-View == <<daemonUp, browsers, published, stored, group, manualShutdown, autoReconnect, loops, requested, shutdownDone, lateActivity, ndisc, ver, nwaits>>
+View == <<daemonUp, browsers, published, stored, group, manualShutdown, autoReconnect, loops, requested, shutdownDone, lateActivity, ndisc, ver, nwaits, lst, shutting, nbrowse>>
 ====
